@@ -79,3 +79,32 @@ Proof.
     exfalso. pose proof (end_pos_app_lt (x :: m) pre2 ltac:(discriminate)) as L.
     rewrite Hp in L. exact (pos_lt_irrefl _ L).
 Qed.
+
+(* PeekToken is coherent with NextToken: peeking changes nothing that NextToken delivers - after
+   PeekToken returned t, NextToken returns the same t and reaches the state NextToken alone
+   would have reached.  (Parser.ReadPeek relies on it in its line-feed loop; Model/Pump.v treats
+   PeekToken as looking at the head of the token stream.) *)
+Lemma set_peeks_id st : set_peeks st (peeks st) = st.
+Proof. destruct st. reflexivity. Qed.
+
+Theorem peek_then_next n st t st1 :
+  peek_token n st = OK (t, st1) ->
+  exists st2, next_token n st1 = OK (t, st2) /\ next_token n st = OK (t, st2).
+Proof.
+  unfold peek_token. destruct (peeks st) as [|h ps] eqn:P.
+  - destruct (next_token n st) as [[t0 s]| | |] eqn:N; cbn [bind]; try discriminate.
+    intros [= <- <-]. exists s. split; [|reflexivity].
+    unfold next_token at 1. cbn [set_peeks peeks].
+    f_equal. f_equal. destruct s. reflexivity.
+  - intros [= <- <-]. unfold next_token. rewrite P. eauto.
+Qed.
+
+(* a second PeekToken returns the same token and changes nothing *)
+Theorem peek_idempotent n st t st1 :
+  peek_token n st = OK (t, st1) -> peek_token n st1 = OK (t, st1).
+Proof.
+  unfold peek_token. destruct (peeks st) as [|h ps] eqn:P.
+  - destruct (next_token n st) as [[t0 s]| | |]; cbn [bind]; try discriminate.
+    intros [= <- <-]. reflexivity.
+  - intros [= <- <-]. rewrite P. reflexivity.
+Qed.
